@@ -206,7 +206,11 @@ impl Storage for SecondaryStorage {
     }
 
     async fn drop_table(&self, table_id: TableRefId) -> StorageResult<()> {
-        self.drop_table_inner(table_id).await
+        self.drop_tables_inner(&[table_id]).await
+    }
+
+    async fn drop_tables(&self, table_ids: &[TableRefId]) -> StorageResult<()> {
+        self.drop_tables_inner(table_ids).await
     }
 
     fn as_disk(&self) -> Option<&SecondaryStorage> {
